@@ -94,14 +94,15 @@ func init() {
 		st.assume(Ge(a, IntLit(0)))
 		return Con(SCoin, c.T(3), a)
 	})
-	// A-BANK: balances are never negative
-	balOf := func(x *Exec, f *Frame, st *State, c *CallInfo) Val {
+	bk("GetAllBalances", func(x *Exec, f *Frame, st *State, c *CallInfo) Val {
+		return Select(st.world.get("bal"), c.T(2))
+	})
+	// A-BANK: balances are never negative (stated where a caller relies on it: farm's capped reward payout)
+	bk("SpendableCoins", func(x *Exec, f *Frame, st *State, c *CallInfo) Val {
 		r := Select(st.world.get("bal"), c.T(2))
 		st.assume(x.coinsPred(st, "coins_nonneg", r, func(a *Term) *Term { return Ge(a, IntLit(0)) }, true))
 		return r
-	}
-	bk("GetAllBalances", balOf)
-	bk("SpendableCoins", balOf)
+	})
 	bk("GetSupply", func(x *Exec, f *Frame, st *State, c *CallInfo) Val {
 		a := Select(st.world.get("supply"), c.T(2))
 		st.assume(Ge(a, IntLit(0)))
